@@ -24,3 +24,11 @@ _P["C16"] = {
     "trusted_base": ["uint16/uint32 wrap-around and Go shift semantics as written in Model/NxUtil.v (shl/shr by >= width give 0)"],
     "assumptions": ["Go int is 64 bit; NXRange fields modelled as Z"],
 }
+
+
+_P["C18"] = {
+    "explanation": "Theorems C18_* (Properties/C18.v): induction over any operation list from any state of Model/CtStates.v; "
+                   "correspondence exhaustive over 6561 states x 16 ops and all sequences up to length 4, plus random longer sequences.",
+    "trusted_base": ["the encoding of the NXM_NX_CT_STATE field (header 00 01 d3 08, value, mask) as written in Model/CtStates.v"],
+    "assumptions": [],
+}
